@@ -10,6 +10,43 @@ import (
 // Script renders a self-contained SMT-LIB2 query asserting all of asserts.
 // It returns the script text and the list of variables (for get-value).
 func Script(asserts []*Term, wantModel bool) (string, []*Term) {
+	return script(asserts, wantModel, false)
+}
+
+// Relaxable reports whether all integer variables of the query may be
+// relaxed to reals (no div/mod/bit-length/uninterpreted integer functions).
+func Relaxable(asserts []*Term) bool {
+	seen := map[int]bool{}
+	ok := true
+	var visit func(t *Term)
+	visit = func(t *Term) {
+		if !ok || seen[t.ID] {
+			return
+		}
+		seen[t.ID] = true
+		switch t.Op {
+		case ODiv, OMod, OBitLen:
+			ok = false
+			return
+		}
+		for _, a := range t.Args {
+			visit(a)
+		}
+	}
+	for _, a := range asserts {
+		visit(a)
+	}
+	return ok
+}
+
+// ScriptRelaxed renders the query with every numeric variable declared Real.
+// The relaxed query is implied by the exact one, so "unsat" carries over.
+func ScriptRelaxed(asserts []*Term) string {
+	s, _ := script(asserts, false, true)
+	return s
+}
+
+func script(asserts []*Term, wantModel bool, relax bool) (string, []*Term) {
 	var sb strings.Builder
 	refs := map[int]int{}
 	var order []*Term
@@ -61,7 +98,11 @@ func Script(asserts []*Term, wantModel bool) (string, []*Term) {
 	}
 	sort.Slice(vars, func(i, j int) bool { return vars[i].Name < vars[j].Name })
 	for _, v := range vars {
-		fmt.Fprintf(&sb, "(declare-fun %s () %s)\n", sym(v.Name), v.Sort)
+		vs := v.Sort
+		if relax && vs == Int {
+			vs = Real
+		}
+		fmt.Fprintf(&sb, "(declare-fun %s () %s)\n", sym(v.Name), vs)
 	}
 	names := make([]string, 0, len(ufs))
 	for n := range ufs {
@@ -72,9 +113,17 @@ func Script(asserts []*Term, wantModel bool) (string, []*Term) {
 		t := ufs[n]
 		var as []string
 		for _, a := range t.Args {
-			as = append(as, a.Sort.String())
+			if relax && a.Sort == Int {
+				as = append(as, "Real")
+			} else {
+				as = append(as, a.Sort.String())
+			}
 		}
-		fmt.Fprintf(&sb, "(declare-fun %s (%s) %s)\n", sym(n), strings.Join(as, " "), t.Sort)
+		rs := t.Sort
+		if relax && rs == Int {
+			rs = Real
+		}
+		fmt.Fprintf(&sb, "(declare-fun %s (%s) %s)\n", sym(n), strings.Join(as, " "), rs)
 	}
 	for _, b := range bitlens {
 		fmt.Fprintf(&sb, "(declare-fun %s () Int)\n", blName(b))
@@ -86,31 +135,43 @@ func Script(asserts []*Term, wantModel bool) (string, []*Term) {
 		if n, ok := named[t.ID]; ok {
 			return n
 		}
-		return render(t, expr)
+		return renderX(t, expr, relax)
 	}
 	for _, t := range order {
 		if len(t.Args) > 0 && refs[t.ID] > 1 && t.Op != OBitLen {
-			body := render(t, expr)
+			body := renderX(t, expr, relax)
 			n := fmt.Sprintf("t!%d", t.ID)
-			fmt.Fprintf(&sb, "(define-fun %s () %s %s)\n", n, t.Sort, body)
+			ts := t.Sort
+			if relax && ts == Int {
+				ts = Real
+			}
+			fmt.Fprintf(&sb, "(define-fun %s () %s %s)\n", n, ts, body)
 			named[t.ID] = n
 		}
 	}
 	for _, v := range vars {
+		ns := Int
+		if relax {
+			ns = Real
+		}
 		if v.Lo != nil {
-			fmt.Fprintf(&sb, "(assert (<= %s %s))\n", num(new(big.Rat).SetInt(v.Lo), Int), sym(v.Name))
+			fmt.Fprintf(&sb, "(assert (<= %s %s))\n", num(new(big.Rat).SetInt(v.Lo), ns), sym(v.Name))
 		}
 		if v.Hi != nil {
-			fmt.Fprintf(&sb, "(assert (<= %s %s))\n", sym(v.Name), num(new(big.Rat).SetInt(v.Hi), Int))
+			fmt.Fprintf(&sb, "(assert (<= %s %s))\n", sym(v.Name), num(new(big.Rat).SetInt(v.Hi), ns))
 		}
 	}
 	for _, t := range order {
 		if t.Op == OApp && t.Sort == Int {
+			ns := Int
+			if relax {
+				ns = Real
+			}
 			if t.Lo != nil {
-				fmt.Fprintf(&sb, "(assert (<= %s %s))\n", num(new(big.Rat).SetInt(t.Lo), Int), expr(t))
+				fmt.Fprintf(&sb, "(assert (<= %s %s))\n", num(new(big.Rat).SetInt(t.Lo), ns), expr(t))
 			}
 			if t.Hi != nil {
-				fmt.Fprintf(&sb, "(assert (<= %s %s))\n", expr(t), num(new(big.Rat).SetInt(t.Hi), Int))
+				fmt.Fprintf(&sb, "(assert (<= %s %s))\n", expr(t), num(new(big.Rat).SetInt(t.Hi), ns))
 			}
 		}
 	}
@@ -174,7 +235,38 @@ func num(r *big.Rat, s Sort) string {
 	return str
 }
 
-func render(t *Term, e func(*Term) string) string {
+func render(t *Term, e func(*Term) string) string { return renderX(t, e, false) }
+
+func renderX(t *Term, e func(*Term) string, relax bool) string {
+	if relax {
+		switch t.Op {
+		case OToReal:
+			return e(t.Args[0])
+		case OConst:
+			return num(t.Rat, Real)
+		case OSum:
+			var parts []string
+			if t.Rat.Sign() != 0 {
+				parts = append(parts, num(t.Rat, Real))
+			}
+			for i, a := range t.Args {
+				k := t.Coef[i]
+				if k.Cmp(rat1) == 0 {
+					parts = append(parts, e(a))
+				} else {
+					parts = append(parts, "(* "+num(k, Real)+" "+e(a)+")")
+				}
+			}
+			if len(parts) == 1 {
+				return parts[0]
+			}
+			return "(+ " + strings.Join(parts, " ") + ")"
+		}
+	}
+	return renderPlain(t, e)
+}
+
+func renderPlain(t *Term, e func(*Term) string) string {
 	bin := func(op string) string {
 		var sb strings.Builder
 		sb.WriteString("(" + op)
